@@ -1,5 +1,6 @@
 import AnyDB.Model.Codec
 import AnyDB.Model.Vec
+import AnyDB.Generated.VecConsts
 
 /-!
 # C17 — on-disk codecs round-trip every valid value and reject garbage without panicking
@@ -258,6 +259,14 @@ theorem C17_page_total (bs : List UInt8) (h : bs.length < 16) : decPage bs = non
 /-- the extracted layout is the one the model uses -/
 theorem C17_layout : metaFields = [("start", 0, 8), ("len", 8, 8), ("reserved", 16, 8), ("id_len", 24, 8)] ∧ metaIdOffset = 32 ∧
     metaGuards = ["sizeCheck", "emptyCheck", "idLenMax", "idLenFits", "utf8", "startAligned", "reservedMin", "reservedAligned", "lenLeReserved"] := by
+  decide
+
+/-- header, page entry, format byte and raw flag: the extracted layout is the model's -/
+theorem C17_layout_vec :
+    headerFields = [("header_version", 0, 4), ("vec_version", 4, 4), ("computed_version", 8, 4), ("stamp", 12, 8), ("format", 20, 1)] ∧
+    pageFields = [("start", 0, 8), ("bytes", 8, 4), ("values", 12, 4)] ∧
+    formatBytes = [(0, "Bytes"), (1, "ZeroCopy"), (64, "Pco"), (65, "LZ4"), (66, "Zstd")] ∧
+    RAW_FLAG = 2 ^ RAW_FLAG_SHIFT ∧ VecM.MAX_PAGE = MAX_UNCOMPRESSED_PAGE_SIZE ∧ changeRecordLengthGuard = 1 := by
   decide
 
 /-- non-vacuity -/
